@@ -22,6 +22,18 @@ on_alarm(int sig)
     _exit(97);
 }
 
+/* "_leakcheck": true: the operation is executed twice more with its results discarded (first to warm
+ * up lazily initialised library state, then measured): heap bytes allocated before and after the
+ * measured run must be equal once the result has been released (C09: nothing the library allocated
+ * for the call survives it, on success and on every failure path) */
+#if defined(__SANITIZE_ADDRESS__)
+extern size_t __sanitizer_get_current_allocated_bytes(void);
+#define HX_HEAP_BYTES() __sanitizer_get_current_allocated_bytes()
+#else
+#define HX_HEAP_BYTES() ((size_t) 0)
+#endif
+#include <openssl/err.h>
+
 static double
 now_ms(void)
 {
@@ -174,6 +186,7 @@ hx_process(char *line)
     json_t *before;
     size_t rc_before;
     bool mutated, refs;
+    long long leaked = 0;
 
     sp = strchr(line, ' ');
     if (sp)
@@ -198,6 +211,36 @@ hx_process(char *line)
             signal(SIGALRM, on_alarm);
             setitimer(ITIMER_REAL, &it, NULL);
         }
+        if (hx_arg_bool(args, "_leakcheck", false)) {
+            size_t b0, b1;
+            json_t *tmp = fn(args);
+            json_decref(tmp);
+            ERR_clear_error();
+            b0 = HX_HEAP_BYTES();
+            tmp = fn(args);
+            json_decref(tmp);
+            ERR_clear_error();
+            b1 = HX_HEAP_BYTES();
+            leaked = (long long) b1 - (long long) b0;
+            if (leaked != 0) {
+                /* bounded growth is not a leak (OpenSSL keeps the data buffers of its 16-slot error ring
+                 * for reuse): repeat until such state is saturated, then measure a steady-state batch */
+                size_t c0, c1;
+                for (int k = 0; k < 24; k++) {
+                    tmp = fn(args);
+                    json_decref(tmp);
+                    ERR_clear_error();
+                }
+                c0 = HX_HEAP_BYTES();
+                for (int k = 0; k < 8; k++) {
+                    tmp = fn(args);
+                    json_decref(tmp);
+                    ERR_clear_error();
+                }
+                c1 = HX_HEAP_BYTES();
+                leaked = ((long long) c1 - (long long) c0) / 8;
+            }
+        }
         res = fn(args);
         if (lim > 0) {
             struct itimerval it = { { 0, 0 }, { 0, 0 } };
@@ -205,6 +248,8 @@ hx_process(char *line)
         }
         if (timed && json_is_object(res))
             json_object_set_new(res, "ms", json_integer((json_int_t) (now_ms() - t0)));
+        if (leaked != 0 && json_is_object(res))
+            json_object_set_new(res, "leak_bytes", json_integer((json_int_t) leaked));
     }
     if (!res)
         res = json_pack("{s:s}", "error", "op-returned-null");
